@@ -3,6 +3,7 @@ import UtilModel.Keyed.C07Retry
 import UtilModel.Keyed.ObsC07
 import UtilModel.Keyed.ObsC06f
 import UtilModel.Keyed.ObsC07c
+import UtilModel.Keyed.ObsC07b2
 /-!
 # keyed — property theorems (C06, C07)
 
@@ -118,6 +119,17 @@ code. (`monC07`'s first clause is stronger: it also spans `ResetRoutine`; for it
 theorem above is proved.) -/
 theorem C07_obs_one_running (es : List Ev) (s : St) (hr : model.run model.init es = some s) :
     monC07a.accepts (es.filterMap model.obs) = true := C07a_obs es s hr
+
+/-- **C07 (one running), observable form across `ResetRoutine`/`RestartRoutine`.** Every observable trace of
+the model is accepted by the executable monitor `monC07b` (= `monC07a` × `monC06o` + a flag per run "belongs to
+the generation of the record now stored under its key"): a routine function is never entered for the
+current record of a key while a run of that key, entered for the then-current record, is still inside its
+function and the key is known to have stayed in the set since — whatever `ResetRoutine` (a new record with
+a new constructor generation), `RestartRoutine`, `SetKey`, `SetContext` and retries did in between. Rests on
+`gk_execOp`/`rem_step` (no event changes the generation of a key's record other than by removing it), the
+chain invariant and `DInv`. The same monitor runs on the histories of the real code. -/
+theorem C07_obs_one_running_across_reset (es : List Ev) (s : St) (hr : model.run model.init es = some s) :
+    monC07b.accepts (es.filterMap model.obs) = true := C07b_obs es s hr
 
 /-- **C07 (removal cancels).** In every reachable state an instance whose context is not cancelled
 belongs to the generation of the record stored under its key, and that record holds its cancel
